@@ -102,11 +102,22 @@ func c18Case(r *fw.Rand, index string) fw.Case {
 			if len(ranges) > 0 && r.Intn(2) == 0 {
 				g := ranges[r.Intn(len(ranges))]
 				lo, hi = g[0], g[1]
-				switch r.Intn(6) { // mostly exact, sometimes one end off by one instant
+				switch r.Intn(8) { // mostly exact, sometimes one end off by one instant
 				case 0:
 					lo -= 1000
 				case 1:
 					hi += 1000
+				case 2, 3:
+					// the window touches a file at one instant only: it starts at the last
+					// instant of one file and ends at the first of another (or of the same)
+					g2 := ranges[r.Intn(len(ranges))]
+					lo, hi = g[1], g2[0]
+					if hi < lo {
+						lo, hi = g2[1], g[0]
+					}
+					if hi < lo {
+						hi = lo
+					}
 				}
 			}
 			mode = fmt.Sprintf("export:%d:%d", lo, hi)
@@ -201,6 +212,10 @@ func c18CopyCase(r *fw.Rand, index string) fw.Case {
 			cut = "nosrc"
 		}
 		ops = append(ops, fmt.Sprintf("copy %s %s n", cut, liveList()))
+		if cut != "full" && cut != "nosrc" && r.Intn(2) == 0 {
+			// the operator runs the copy again, to the destination the broken one left behind
+			ops = append(ops, fmt.Sprintf("copyagain %s %s n", cut, liveList()))
+		}
 		if cut == "full" {
 			// the copy succeeded: the meta nodes add the destination to the shard's owners
 			var owners []string
